@@ -35,6 +35,11 @@ a_bounded1 = z3.Function("a_bounded1", Arr, z3.BoolSort())      # every element 
 a_fftfreq = z3.Function("a_fftfreq", I, R, Arr)
 a_delay = z3.Function("a_delay", I, I, Arr)                      # frequency response of a delay by k samples, length n
 a_abs = z3.Function("a_abs", Arr, Arr)
+a_cscale = z3.Function("a_cscale", R, R, Arr, Arr)                # (re + i im) * a
+a_slice = z3.Function("a_slice", Arr, I, I, Arr)                  # a[lo:hi], 0 <= lo <= hi <= len
+a_diff = z3.Function("a_diff", Arr, Arr)                          # np.diff
+a_irfft = z3.Function("a_irfft", Arr, Arr)
+a_rfftfreq = z3.Function("a_rfftfreq", I, R, Arr)
 
 
 def laws():
@@ -80,6 +85,20 @@ def laws():
        [a_concat(a_add(a, b), a_zeros(n))])
     fa([c, a, n], z3.Implies(n >= 0, a_concat(a_scale(c, a), a_zeros(n)) == a_scale(c, a_concat(a, a_zeros(n)))),
        [a_concat(a_scale(c, a), a_zeros(n))])
+    # scalar multiples compose; complex scalar multiples and further linear maps
+    d = z3.Real("d")
+    e = z3.Real("e")
+    fa([c, d, a], a_scale(c, a_scale(d, a)) == a_scale(c * d, a), [a_scale(c, a_scale(d, a))])
+    fa([a], a_scale(1, a) == a, [a_scale(1, a)])
+    fa([c, d, a], alen(a_cscale(c, d, a)) == alen(a), [a_cscale(c, d, a)])
+    fa([c, d, e, a], a_cscale(c, d, a_scale(e, a)) == a_scale(e, a_cscale(c, d, a)), [a_cscale(c, d, a_scale(e, a))])
+    fa([a, n, k], z3.Implies(z3.And(0 <= n, n <= k, k <= alen(a)), alen(a_slice(a, n, k)) == k - n), [a_slice(a, n, k)])
+    fa([c, a, n, k], a_slice(a_scale(c, a), n, k) == a_scale(c, a_slice(a, n, k)), [a_slice(a_scale(c, a), n, k)])
+    fa([a], z3.Implies(alen(a) >= 1, alen(a_diff(a)) == alen(a) - 1), [a_diff(a)])
+    fa([c, a], a_diff(a_scale(c, a)) == a_scale(c, a_diff(a)), [a_diff(a_scale(c, a))])
+    fa([c, a, k], a_roll(a_scale(c, a), k) == a_scale(c, a_roll(a, k)), [a_roll(a_scale(c, a), k)])
+    fa([c, a], a_irfft(a_scale(c, a)) == a_scale(c, a_irfft(a)), [a_irfft(a_scale(c, a))])
+    fa([c, a], z3.Implies(c >= 0, a_scale(c, a_abs(a)) == a_abs(a_scale(c, a))), [a_scale(c, a_abs(a))])
     # identities
     fa([a], a_ifft(a_fft(a)) == a, [a_ifft(a_fft(a))])
     fa([a, n], z3.Implies(n == alen(a), a_mul(a_ones(n), a) == a), [a_mul(a_ones(n), a)])
@@ -196,20 +215,49 @@ def binop(ctx, op, a, b):
             return AbsArr(a_add(a.term, a_scale(z3.RealVal(-1), b.term)))
         if op == "*":
             return AbsArr(a_mul(a.term, b.term))
-        raise Unsupported("abstract array %s" % op)
+        return ew(ctx, op, a.term, b.term)
     arr, sc, left = (a, b, True) if isinstance(a, AbsArr) else (b, a, False)
     if isinstance(sc, Cx):
-        raise Unsupported("complex scalar times abstract array")
+        if op == "*":
+            return AbsArr(a_cscale(to_real(sc.re), to_real(sc.im), arr.term))
+        raise Unsupported("complex scalar %s abstract array" % op)
     if not is_scalar(sc):
         raise Unsupported("abstract array %s %r" % (op, sc))
     s = to_real(sc)
     if op == "*":
         return AbsArr(a_scale(s, arr.term))
     if op == "/" and left:
+        if not ctx.branch(s != 0):
+            raise Unsupported("abstract array divided by zero (inf/nan values)")
         return AbsArr(a_scale(1 / s, arr.term))
     if op == "+" and not is_z3(sc) and sc == 0:
         return AbsArr(arr.term)
-    raise Unsupported("abstract array %s scalar" % op)
+    return ew(ctx, op, arr.term, s, left)
+
+
+_OPN = {"+": "add", "-": "sub", "*": "mul", "/": "div", "**": "pow", "//": "floordiv", "%": "mod"}
+
+
+def ew(ctx, op, x, y, arr_left=True):
+    """element-wise operation known only by name (no law but its length): equal operands give equal results"""
+    nm = _OPN.get(op)
+    if nm is None:
+        raise Unsupported("abstract array %s" % op)
+    xa = isinstance(x, z3.ExprRef) and x.sort() == Arr
+    ya = isinstance(y, z3.ExprRef) and y.sort() == Arr
+    if xa and ya:
+        f = z3.Function("ew_%s_aa" % nm, Arr, Arr, Arr)
+        t = f(x, y)
+        ctx.assume(alen(t) == alen(x))
+    elif arr_left:
+        f = z3.Function("ew_%s_as" % nm, Arr, R, Arr)
+        t = f(x, y)
+        ctx.assume(alen(t) == alen(x))
+    else:
+        f = z3.Function("ew_%s_sa" % nm, R, Arr, Arr)
+        t = f(y, x)
+        ctx.assume(alen(t) == alen(x))
+    return AbsArr(t)
 
 
 def unop(op, a):
@@ -229,7 +277,24 @@ def compare(ctx, op, a, b):
 def getitem(ctx, o, idx):
     ensure_laws(ctx)
     if isinstance(idx, SliceVal) and idx.lo is None and idx.step is None and idx.hi is not None:
-        return AbsArr(a_take(o.term, lift(idx.hi)))
+        hi = lift(idx.hi)
+        if ctx.branch(z3.And(hi >= 0, hi <= alen(o.term))):
+            return AbsArr(a_take(o.term, hi))
+    if isinstance(idx, SliceVal) and idx.step is None:
+        n = alen(o.term)
+
+        def norm(v, dflt):
+            if v is None:
+                return dflt
+            v = lift(v)
+            if ctx.branch(v < 0):
+                v = v + n
+                return v if ctx.branch(v >= 0) else z3.IntVal(0)
+            return v if ctx.branch(v <= n) else n
+        lo, hi = norm(idx.lo, z3.IntVal(0)), norm(idx.hi, n)
+        if not ctx.branch(lo <= hi):
+            hi = lo
+        return AbsArr(a_slice(o.term, lo, hi))
     if is_scalar(idx):
         return a_at(o.term, lift(idx))
     raise Unsupported("abstract array index %r" % (idx,))
@@ -298,6 +363,22 @@ def np_call(it, ctx, name, a, k):
         return AbsArr(a_fftfreq(lift(n), to_real(d)))
     if name == "roll":
         return AbsArr(a_roll(a[0].term, lift(a[1])))
+    if name == "diff":
+        return AbsArr(a_diff(a[0].term))
+    if name == "irfft":
+        return AbsArr(a_irfft(a[0].term))
+    if name == "rfftfreq":
+        n = k.get("n", a[0] if a else None)
+        d = k.get("d", a[1] if len(a) > 1 else 1)
+        t = a_rfftfreq(lift(n), to_real(d))
+        ctx.assume(alen(t) == lift(n) / 2 + 1)
+        return AbsArr(t)
+    if name in ("exp", "sqrt", "sin", "cos", "tan", "log", "log10", "arctan", "sign", "square", "conj", "conjugate", "angle",
+                "radians", "degrees", "sinh", "cosh", "tanh"):
+        f = z3.Function("map_np_" + name, Arr, Arr)
+        t = f(a[0].term)
+        ctx.assume(alen(t) == alen(a[0].term))
+        return AbsArr(t)
     if name in ("max", "min", "sum"):
         return ctx.fresh("abs_" + name, R)
     if name in ("any", "all"):
@@ -357,6 +438,10 @@ def numeric_check(trials=60, seed=1):
         "a_isreal": lambda a: bool(np.all(np.imag(a) == 0)),
         "a_bounded1": lambda a: bool(np.all(np.abs(a) <= 1 + 1e-12)),
         "a_fftfreq": lambda n, d: F.fftfreq(max(n, 1), d=d if d != 0 else 1.0)[:max(n, 0)],
+        "a_cscale": lambda c, d, a: (c + 1j * d) * a,
+        "a_slice": lambda a, lo, hi: a[max(0, lo):max(0, hi)] if lo <= hi else a[:0],
+        "a_diff": lambda a: np.diff(a) if len(a) else a,
+        "a_irfft": lambda a: np.fft.irfft(a) if len(a) > 1 else np.zeros(0),
         "a_delay": lambda k, n: np.exp(-2j * np.pi * k * np.arange(max(n, 0)) / n) if n > 0 else np.zeros(0),
     }
 
